@@ -20,6 +20,10 @@ CHECKS = {
    text="Report/query/clock-jump/registration histories on the virtual wall clock (hook H3), 5 reporters, quorum 1..4, ttl 2/60 s with jumps at ttl-1/ttl/ttl+1; listed => registered and >= quorum distinct reporters with a report no older than ttl; re-registration clears.", note="One-directional oracle as the property is; boundary age == ttl accepted either way.", ref="§7 C18"),
  "C11": dict(engine="E4 shuttle-sim", cat="exploration", tech="deterministic simulation of thread interleavings: shuttle-controlled threads on the real TaskBlockingQueue switching at hooks before every atomic access; seeded random + PCT schedules; replayable schedule",
    text="Real BlockingMap/TaskBlockingQueue with stub inner and re-dispatch senders; 2-4 sender threads (all hints), 1-2 blockers, a backend thread; shuttle decides every interleaving at the granularity of individual atomic operations (H8 hooks). Oracle over the recorded history: no hand-over to the source inside (barrier observed, blocking lifted); exactly one terminal event per command; nothing stays queued; counter returns to zero.", note="Sequential consistency assumed (all accesses SeqCst; shuttle runs one thread at a time). Senders/backends are stubs; the queue, counters, CAS loop and crossbeam channel are real.", ref="§7 C11"),
+ "C03": dict(engine="E2 cluster-sim", cat="exploration", tech="deterministic whole-system simulation: real broker+coordinator+proxies on a simulated network and Redis model; seeded delivery schedules; per-key linearizability check (WGL) of the client history + final placement oracle",
+   text="Real broker, real coordinator loops and 2-6 real proxies around a Redis model on a simulated network with seeded per-message latencies; a cluster is scaled out/in by one chunk while 2-4 clients run 80-260 string/counter/list operations (incl. DEL/LPOP/RPOP, hot keys whose migration lock slot collides with quiet keys) through random proxies following MOVED. Oracle 1: every key's invoke/return history (global event numbers) is linearizable against a sequential register/list model. Oracle 2 after commit+quiescence: every key exists exactly once, on the broker-designated owner, with a value allowed by the linearizations; no copy anywhere else.", note="Message-level interleavings on a single-threaded runtime (thread-level races of the barrier are C11's). SimRedis is the Redis specification for these runs. Fault-free network by design: the property quantifies over interleavings.", ref="§7 C03"),
+ "C19": dict(engine="E2 cluster-sim", cat="exploration", tech="deterministic whole-system simulation with fault injection (buggified PTTL replies, SCAN duplicates, virtual-clock expiry): every RESTORE observed at the Redis model is matched with the PTTL readings of its transfer",
+   text="Same migration runs with a TTL key population (30 ms..1 h on the virtual clock, and persistent keys); every third run the source nodes answer PTTL with a buggified value {0,1,2,999,2^63-1,-1,malformed}. At the receiving SimRedis every successful RESTORE must be consistent with at least one PTTL reading of that transfer: -1 => ttl 0; p>=1 => 1<=ttl<=p; 0 => not persistent.", note="The three transfer paths are distinguished only by which component issued the PTTL (scan client vs. proxy backend); all are covered by the same oracle at the Redis model.", ref="§7 C19"),
 }
 NOT_APPLICABLE = {
  "C02": "not yet built in this tree: cluster-sim (E2) check under construction; see DESIGN §11.1",
